@@ -180,9 +180,10 @@ def synth(st, rng, hint='', wild=True):
 class Policy:
     """decisions of the instance generator"""
 
-    def __init__(self, rng, mode='full', branch_shift=0, depth_limit=9, rep=2, wild=False):
+    def __init__(self, rng, mode='full', branch_shift=0, depth_limit=9, rep=2, wild=False, rec_depth=0):
         self.rng, self.mode, self.branch_shift, self.depth_limit, self.rep = rng, mode, branch_shift, depth_limit, rep
         self.wild = wild
+        self.rec_depth = rec_depth       # how many times a recursive element declaration is unfolded inside itself
 
     def count(self, p, depth, recursive):
         mn, mx = p.min, p.max
@@ -252,7 +253,7 @@ def gen_element(e, pol, nsmap, depth=0, stack=()):
 
 def gen_particle(p, pol, depth, stack):
     """list of elements for particle p (None = cannot satisfy)"""
-    recursive = isinstance(p, X.Elem) and isinstance(p.type, X.ComplexType) and p.type.name in stack
+    recursive = isinstance(p, X.Elem) and isinstance(p.type, X.ComplexType) and stack.count(p.type.name) > pol.rec_depth
     if isinstance(p, X.AnyP):
         return []
     n = pol.count(p, depth, recursive)
@@ -288,6 +289,36 @@ def gen_particle(p, pol, depth, stack):
             if not done and p.min > i:
                 return None
     return out
+
+
+def reprefix(root, prefix_of):
+    """the same infoset with other namespace prefixes: prefix_of = {namespace uri: prefix | None (default namespace)}.
+    Namespaces that carry attributes cannot be the default namespace (unprefixed attributes are in no namespace); the caller sees to that."""
+    nsmap = {p: u for u, p in prefix_of.items()}
+
+    def copy(el, parent):
+        new = etree.Element(el.tag, nsmap=nsmap) if parent is None else etree.SubElement(parent, el.tag)
+        new.text, new.tail = el.text, el.tail
+        for k, v in el.attrib.items():
+            new.set(k, v)
+        for c in el:
+            if isinstance(c.tag, str):
+                copy(c, new)
+        return new
+    return copy(root, None)
+
+
+ODD_PREFIX = {'ism': 'icism', 'sicommon': 'sc', 'sfa': 'geo'}
+
+
+def prefix_plans(root_ns, extra):
+    """[(name, {uri: prefix|None})] non-customary bindings of every namespace of a schema version: the root namespace bound to a
+    prefix instead of being the default one, and (SIDD) the ism / sicommon / sfa namespaces bound to other prefixes than the customary ones"""
+    plans = [('all-prefixed', dict([(root_ns, 'n0')] + [(u, ODD_PREFIX.get(k, 'p' + k)) for k, u in extra.items()]))]
+    if extra:
+        plans.append(('default-root+odd-prefixes', dict([(root_ns, None)] + [(u, ODD_PREFIX.get(k, 'p' + k)) for k, u in extra.items()])))
+        plans.append(('prefixed-root+customary', dict([(root_ns, 'sidd')] + [(u, k) for k, u in extra.items()])))
+    return plans
 
 
 # -------------------------------------------------------------------------------------------- bookkeeping repair
